@@ -172,4 +172,23 @@ func (*tableParagraphTransformer).Transform
   // the table's children are nodes made here, so the paragraph (which existed before) is not among them: the table is not its parent
   loop 1 inv [kidsFresh] forall r int {kid(asnode(table), r)} :: (0 <= r && r < klen(asnode(table))) ==> int(ifptr(kid(asnode(table), r))) >= old(allocbound())
   loop 1 inv [rect] forall r int {kid(asnode(table), r)} :: (0 <= r && r < klen(asnode(table))) ==> klen(kid(asnode(table), r)) == len(alignments)
+
+// ---- extension node renderers (C03): in safe mode they write vocabulary literals and attributes rendered by
+// html.RenderAttributes only; the tree handed to them satisfies the renderer's tree assumptions ----
+func (*StrikethroughHTMLRenderer).renderStrikethrough
+  requires html.treeInv()
+func (*DefinitionListHTMLRenderer).renderDefinitionList
+  requires html.treeInv()
+func (*DefinitionListHTMLRenderer).renderDefinitionTerm
+  requires html.treeInv()
+func (*DefinitionListHTMLRenderer).renderDefinitionDescription
+  requires html.treeInv()
+func (*TableHTMLRenderer).renderTable
+  requires html.treeInv()
+func (*TableHTMLRenderer).renderTableHeader
+  requires html.treeInv()
+func (*TableHTMLRenderer).renderTableRow
+  requires html.treeInv()
+func (*TaskCheckBoxHTMLRenderer).renderTaskCheckBox
+  requires html.treeInv()
 @*/
